@@ -377,14 +377,19 @@ func TestVerifC14Exec(t *testing.T) {
 		rootsAfter := h.node.Contracts.SectorRoots(cid)
 		balAfter := h.balance()
 		// temporary sectors referenced afterwards: stored roots of executed StoreSector steps
-		ntemps := 0
+		ntemps, newTemps := 0, 0
+		var stored []types.Hash256
 		for k, st := range steps {
 			if _, ok := p.prog[k].(*rhp3.InstrStoreSector); ok && st.r.err == nil && st.r.pan == nil {
 				var root types.Hash256
 				copy(root[:], st.r.out)
 				if ok, _ := h.node.Volumes.HasSector(root); ok {
 					ntemps++
+					if !w.tempRef[root] {
+						newTemps++
+					}
 				}
+				stored = append(stored, root)
 			}
 		}
 		outcome := ""
@@ -404,12 +409,15 @@ func TestVerifC14Exec(t *testing.T) {
 			if balBefore.Cmp(balAfter) < 0 || balBefore.Sub(balAfter).Cmp(p.amount) > 0 {
 				em.Monitor("rejected-program-overcharged", fmt.Sprintf("balance %v -> %v, budget %v", balBefore, balAfter, p.amount))
 			}
-			if ntemps > 0 {
-				em.Monitor("rejected-program-kept-temp-sector", fmt.Sprint(ntemps))
+			if newTemps > 0 {
+				em.Monitor("rejected-program-kept-temp-sector", fmt.Sprint(newTemps))
 			}
 		default:
 			outcome = "(Done " + coqList(outs) + ")"
 			em.Count("exec:done")
+			for _, r := range stored {
+				w.tempRef[r] = true
+			}
 		}
 		if strings.HasPrefix(outcome, "(Rejected") || outcome == "Crashed" {
 			ntemps = 0
